@@ -111,11 +111,27 @@ impl Worker {
             };
             return Ok(Err(Died { how, stderr }));
         }
+        if let Some(how) = died_line(&reply) {
+            return Ok(Err(Died {
+                how,
+                stderr: String::new(),
+            }));
+        }
         match serde_json::from_str::<T>(&reply) {
             Ok(t) => Ok(Ok(t)),
             Err(e) => Err(format!("unparsable worker reply ({}): {}", e, reply.chars().take(200).collect::<String>())),
         }
     }
+}
+
+/// `{"died": "..."}` — the supervisor reporting that the child running the request was killed
+fn died_line(reply: &str) -> Option<String> {
+    if !reply.starts_with("{\"died\"") {
+        return None;
+    }
+    serde_json::from_str::<Value>(reply)
+        .ok()
+        .and_then(|v| v["died"].as_str().map(|s| s.to_string()))
 }
 
 impl Worker {
@@ -137,6 +153,15 @@ impl Worker {
             if got == 0 || !reply.ends_with('\n') {
                 dead = true;
                 break;
+            }
+            if let Some(how) = died_line(&reply) {
+                return Ok((
+                    out,
+                    Some(Died {
+                        how,
+                        stderr: String::new(),
+                    }),
+                ));
             }
             match serde_json::from_str::<CellRes>(&reply) {
                 Ok(t) => out.push(t),
@@ -278,17 +303,11 @@ fn do_cells(sh: &Shared, w: &mut Worker, info: &BodyInfo, reqs: &[CellReq], base
         let req = &reqs[from];
         from += 1;
         // re-run the culprit alone in a fresh child to confirm
-        let mut fresh = Worker {
-            proc: None,
-            keep_stderr: false,
-            cpu: w.cpu,
-            spawns: 0,
-        };
-        let again = fresh.call::<CellRes>(&Req::Cell(req.clone()));
+        // (the supervisor forks a pristine child for it: nothing ran in that process before)
+        let again = w.call::<CellRes>(&Req::Cell(req.clone()));
         let mut a = sh.agg.lock().unwrap();
         a.cells += 1;
         a.aborts += 1;
-        a.spawns += fresh.spawns;
         *a.cells_by_kind.entry(req.sched.kind().to_string()).or_default() += 1;
         *a.cells_by_mode.entry(req.mode.name().to_string()).or_default() += 1;
         match again {
@@ -723,7 +742,10 @@ pub fn run_tier(ctx: &CheckCtx, thorough: bool) -> CheckResult {
     let max_schedules: u64 = if thorough { 40_000 } else { 600 };
 
     // phase 1: measure every body on every schedule, unbounded
-    let all = bodies(thorough);
+    let mut all = bodies(thorough);
+    if std::env::var("VX_C13_NOLOCKS").is_ok() {
+        all.retain(|b| !b.has_locks());
+    }
     let infos: Mutex<Vec<Option<BodyInfo>>> = Mutex::new((0..all.len()).map(|_| None).collect());
     {
         let q: Mutex<VecDeque<usize>> = Mutex::new((0..all.len()).collect());
